@@ -262,6 +262,35 @@ fn slot_strategy() -> impl Strategy<Value = u32> {
     ]
 }
 
+/// texts of 30..160 tokens, mostly card spellings with many repeats
+pub fn long_text_strategy() -> impl Strategy<Value = String> {
+    (proptest::collection::vec((0usize..52, 0u8..8), 30..160), 0usize..52).prop_map(|(toks, hot)| {
+        let mut s = String::new();
+        for (i, (c, style)) in toks.iter().enumerate() {
+            // half of the tokens come from a small "hot" window of the deck so that repeats are common
+            let c = if style & 1 == 0 { (hot + c % 6) % 52 } else { *c };
+            let w = card::DECK[c];
+            let (r, s0) = card::decode(w).unwrap();
+            let rc = card::RANK_CHARS[r as usize];
+            let t = match style >> 1 {
+                0 => format!("{}{}", rc, card::SUIT_GLYPHS[s0 as usize]),
+                1 => format!("{}{}", rc, card::SUIT_LETTERS[s0 as usize]),
+                2 => format!("{}{}", rc.to_ascii_lowercase(), card::SUIT_LETTERS[s0 as usize].to_ascii_lowercase()),
+                _ => {
+                    if i % 11 == 0 {
+                        "zz".to_string()
+                    } else {
+                        format!("{}{}", rc, card::SUIT_LETTERS[s0 as usize])
+                    }
+                }
+            };
+            s.push_str(&t);
+            s.push(if i % 7 == 3 { '\n' } else { ' ' });
+        }
+        s
+    })
+}
+
 fn ops_json(ops: &[Op]) -> Value {
     json!(ops
         .iter()
@@ -402,6 +431,25 @@ pub fn run(run: &mut Run) -> PResult {
             return run.violation("C15.from_text", &f.value, json!({"text": f.value}), &m);
         }
     }
+    // long texts: up to 160 tokens, mostly card spellings with many repeats (more tokens than a deck has cards)
+    {
+        let st = engine::RStats::new();
+        let cases = (if thorough { 400_000 } else { 60_000 }) / if run.is_twin() { 4 } else { 1 };
+        let make = long_text_strategy;
+        let res = pt::run_sharded(run.seed, 0xC15_1076, cases, &make, &|s: String| {
+            let n = text::tokens_with(super::c12::ws_def(), &s).len();
+            st.note(engine::hash_str(&s), n > 52, Some(if n > 104 { "more than 104 tokens" } else if n > 52 { "53..=104 tokens" } else { "at most 52 tokens" }), || json!({"text_tokens": n, "text_start": s.chars().take(60).collect::<String>()}));
+            text_clause(&s).map_err(|e| {
+                st.freeze();
+                e
+            })
+        });
+        st.flush(run, "proptest long token texts -> set", "proptest (8 shards)", None, "30..160 tokens, repeats frequent; non-trivial = more tokens than a deck has cards");
+        if let Err(f) = res {
+            let m = text_clause(&f.value).err().unwrap_or_default();
+            return run.violation("C15.from_text", &f.value, json!({"text": f.value}), &m);
+        }
+    }
     // structured sets: peel to exhaustion
     {
         let mut sets: Vec<u64> = vec![0, ALL52, u64::MAX, !ALL52, 1 << 52, (1 << 52) | 1];
@@ -477,7 +525,7 @@ pub fn run(run: &mut Run) -> PResult {
 }
 
 pub fn check_case(clause: &str, case: &Value) -> Result<(), String> {
-    if clause.ends_with(".after_disturbance") {
+    if clause.ends_with(".after_disturbance") || clause.ends_with(".concurrent") || clause.ends_with(".concurrent_cold_start") {
         return super::common::replay_after_disturbance(case, check_case);
     }
     match clause {
@@ -592,7 +640,7 @@ pub fn run_c16(run: &mut Run) -> PResult {
 }
 
 pub fn check_case_c16(clause: &str, case: &Value) -> Result<(), String> {
-    if clause.ends_with(".after_disturbance") {
+    if clause.ends_with(".after_disturbance") || clause.ends_with(".concurrent") || clause.ends_with(".concurrent_cold_start") {
         return super::common::replay_after_disturbance(case, check_case_c16);
     }
     match clause {
